@@ -125,6 +125,9 @@ class UMNDirHandler(DirHandler):
                     self.fileentries.remove(fileentriesdict[linkentry.selector])
                 else:
                     self.mergeentries(fileentriesdict[linkentry.selector], linkentry)
+            elif linkentry.gettype() == "X":
+                # Asked to hide something that is not listed anyway.
+                continue
             else:
                 self.fileentries.append(linkentry)
 
